@@ -169,8 +169,13 @@ func ThreeArcCam2D(
 	p = v2.Vec{0, distance}.Sub(s.flankCenter)
 	s.thetaNose = math.Atan2(p.Y, p.X)
 	// work out the bounding box
-	// TODO fix this - it's wrong if the flank radius is small
-	s.bb = Box2{v2.Vec{-baseRadius, -baseRadius}, v2.Vec{baseRadius, distance + noseRadius}}
+	// the flank arcs bulge beyond the base circle where they cross the
+	// horizontal through the flank center
+	w := baseRadius
+	if s.thetaBase <= 0 && s.thetaNose >= 0 {
+		w = math.Max(w, s.flankCenter.X+flankRadius)
+	}
+	s.bb = Box2{v2.Vec{-w, -baseRadius}, v2.Vec{w, distance + noseRadius}}
 	return &s, nil
 }
 
